@@ -13,6 +13,8 @@ Writes
   * <build>/gen/C18_tables.json  (same data for lib/vf/props/C18.py)
 Anything outside the restricted grammar is reported in the result as 'out_of_grammar' (list of strings)."""
 import json, os, re, subprocess, sys, tempfile
+sys.path.insert(0, os.path.dirname(os.path.abspath(__file__)))
+import strict
 
 MARK = "@@C18_MARK@@"
 
@@ -277,6 +279,16 @@ def classify(ty, structs, enums):
         return {"k": "enum", "name": t}
     return {"k": "unknown", "text": t}
 
+def members_source(sname, body, oog):
+    """consume-everything: EVERY member declaration of the structure as written (flat text, comments and attributes removed), in
+    order — the field tables carry names and types only; default member initialisers, the config macro, using-declarations,
+    member functions are carried here so that no token of the definition is dropped"""
+    try:
+        return strict.split_statements(body)
+    except strict.Unaccounted as ex:
+        oog.append("%s: members: %s" % (sname, ex))
+        return []
+
 # ----------------------------------------------------------------------------- main translation
 
 def translate(repo):
@@ -297,7 +309,7 @@ def translate(repo):
             structs[name] = {"file": None, "fields": [], "local_enums": {}, "table": rows, "cxx": ty}
             continue
         fields, local = parse_fields(name, d[1], oog)
-        structs[name] = {"file": d[0], "fields": fields, "local_enums": local, "table": rows, "cxx": ty}
+        structs[name] = {"file": d[0], "fields": fields, "local_enums": local, "table": rows, "cxx": ty, "members_source": members_source(name, d[1], oog)}
     for ty, rows in alias:
         m = re.fullmatch(r"(%s)<config_t>" % IDENT, ty)
         name = m.group(1) if m else ty
@@ -321,7 +333,8 @@ def translate(repo):
         items = enum_values(parse_enum_body(d[1], oog, ty), oog, ty) if d else []
         if d is None:
             oog.append("enum %s: definition not found" % ty)
-        enums[ty] = {"file": d[0] if d else None, "enumerators": items, "table": rows, "has_table": True, "cxx": ty}
+        enums[ty] = {"file": d[0] if d else None, "enumerators": items, "table": rows, "has_table": True, "cxx": ty,
+                     "source": " ".join(d[1].split()) if d else ""}
     # enum-typed fields whose enum has no table specialisation but is defined at namespace scope
     for sn, s in structs.items():
         for f in s["fields"]:
@@ -330,7 +343,7 @@ def translate(repo):
                 d = find_definition(files, r"enum\s+class|enum\s+struct|enum", t)
                 if d:
                     enums[t] = {"file": d[0], "enumerators": enum_values(parse_enum_body(d[1], oog, t), oog, t), "table": [],
-                                "has_table": False, "cxx": t}
+                                "has_table": False, "cxx": t, "source": " ".join(d[1].split())}
     for sn, s in structs.items():
         for f in s["fields"]:
             f["ty"] = classify(f["type"], structs, enums)
@@ -413,6 +426,13 @@ def emit_coq(T):
         L.append("Definition schema_%s : schema := %s." % (re.sub(r"\W", "_", n), schema(n)))
     L.append("Definition schemas : list (string * schema) :=\n  " +
              clist(["(%s, schema_%s)" % (cstr(n), re.sub(r"\W", "_", n)) for n in T["order"]]) + ".")
+    L.append("")
+    L.append("(* per struct: every member declaration as written (default initialisers, config macro, ... : what the tables above do not carry) *)")
+    L.append("Definition struct_members_source : list (string * list string) :=\n  " +
+             clist(["\n   (%s, %s)" % (cstr(n), clist([cstr(m) for m in S[n].get("members_source", [])])) for n in T["order"]]) + ".")
+    L.append("(* per enum defined at namespace scope: the enumerator list as written *)")
+    L.append("Definition enum_source : list (string * string) :=\n  " +
+             clist(["\n   (%s, %s)" % (cstr(n), cstr(E[n]["source"])) for n in E if "source" in E[n]]) + ".")
     return "\n".join(L) + "\n"
 
 # ----------------------------------------------------------------------------- C++ output
@@ -455,7 +475,7 @@ def write_if_changed(path, txt):
 def run(repo, verif, build):
     T = translate(repo)
     if T.get("ok"):
-        write_if_changed(os.path.join(verif, "coq", "gen", "ParamTables.v"), emit_coq(T))
+        write_if_changed(os.path.join(os.environ.get("VERIF_GEN_OUT") or os.path.join(verif, "coq", "gen"), "ParamTables.v"), emit_coq(T))
         write_if_changed(os.path.join(build, "gen", "C18_gen.hpp"), emit_cpp(T))
         write_if_changed(os.path.join(build, "gen", "C18_tables.json"), json.dumps(T, indent=1, ensure_ascii=False, default=str))
     return T
@@ -463,7 +483,7 @@ def run(repo, verif, build):
 if __name__ == "__main__":
     repo = sys.argv[1] if len(sys.argv) > 1 else os.environ.get("VERIF_REPO", "/repo")
     verif = os.path.dirname(os.path.dirname(os.path.abspath(__file__)))
-    build = sys.argv[2] if len(sys.argv) > 2 else os.path.join(verif, "build")
+    build = sys.argv[2] if len(sys.argv) > 2 else (os.path.join(os.environ["VERIF_GEN_OUT"], "_build") if os.environ.get("VERIF_GEN_OUT") else os.path.join(verif, "build"))
     T = run(repo, verif, build)
     print(json.dumps({"ok": T.get("ok"), "out_of_grammar": T["out_of_grammar"],
                       "structs": {n: [f["name"] + ":" + f["ty"]["k"] for f in s["fields"]] for n, s in T.get("structs", {}).items()},
